@@ -1,6 +1,6 @@
 use std::io::{self, Read, Write};
 
-use bytes::{BufMut, BytesMut};
+use bytes::{Buf, BufMut, BytesMut};
 #[cfg(feature = "async")]
 use tokio::io::{AsyncRead, AsyncReadExt, AsyncWrite, AsyncWriteExt};
 use tracing::{debug, error, info, trace};
@@ -48,7 +48,7 @@ impl<IO> Connection<IO> {
         let mut recv_buf = BytesMut::zeroed(DEFAULT_BUFFER_CAPACITY);
         let mut total_read = 0;
 
-        let protocol_version = loop {
+        let (protocol_version, remaining) = loop {
             let (data, amount_read) = read_to_buffer(&mut io, &mut recv_buf, &mut total_read)?;
 
             if amount_read == 0 {
@@ -59,9 +59,9 @@ impl<IO> Connection<IO> {
             }
 
             match parser::greeting(data) {
-                Ok((_, version)) => {
+                Ok((remaining, version)) => {
                     info!(?version, "connected successfully");
-                    break Box::from(version);
+                    break (Box::from(version), remaining.len());
                 }
                 Err(e) if e.is_incomplete() => {
                     // The response was valid *so far*, try another read
@@ -74,12 +74,15 @@ impl<IO> Connection<IO> {
             }
         };
 
+        // Keep data received after the greeting, it belongs to the first response
+        recv_buf.advance(total_read - remaining);
+
         Ok(Connection {
             io,
             protocol_version,
             field_cache: ResponseFieldCache::new(),
             recv_buf,
-            total_received: 0,
+            total_received: remaining,
         })
     }
 
@@ -291,7 +294,7 @@ impl<IO> AsyncConnection<IO> {
     {
         let mut recv_buf = BytesMut::with_capacity(DEFAULT_BUFFER_CAPACITY);
 
-        let protocol_version = loop {
+        let (protocol_version, remaining) = loop {
             let read = io.read_buf(&mut recv_buf).await?;
             trace!(read);
 
@@ -303,9 +306,9 @@ impl<IO> AsyncConnection<IO> {
             }
 
             match parser::greeting(&recv_buf) {
-                Ok((_, version)) => {
+                Ok((remaining, version)) => {
                     info!(?version, "connected successfully");
-                    break Box::from(version);
+                    break (Box::from(version), remaining.len());
                 }
                 Err(e) if e.is_incomplete() => {
                     // The response was valid *so far*, try another read
@@ -318,7 +321,8 @@ impl<IO> AsyncConnection<IO> {
             }
         };
 
-        recv_buf.clear();
+        // Keep data received after the greeting, it belongs to the first response
+        recv_buf.advance(recv_buf.len() - remaining);
 
         Ok(AsyncConnection(Connection {
             io,
